@@ -1148,7 +1148,8 @@ def job_pair(a, acc):
             exps += list(range(0, 12)) if tier == "thorough" else [0, 1, 5]
         for cexp in exps:
             for sexp in exps:
-                for chunk in (None, 1, 5):
+                big = max(cexp or 0, sexp or 0) > 5
+                for chunk in ((None, 4099) if big else (None, 1, 5)):
                     case_pair(acc, {"kind": "pair1", "tkind": "rs", "sid": sid, "cexp": cexp,
                                     "sexp": sexp, "chunk": chunk, "fbd": None, "raise_at": None})
         for side in ("client", "server"):
@@ -1256,7 +1257,7 @@ def case_pair(acc, a):
                 errs[:1], len(got), len(wantp)), a)
     # delivery, optionally in small chunks, alternating directions
     chunk = a["chunk"]
-    for _ in range(400000):
+    for _ in range(3000000):
         p.collect()
         if not p.wire["c2s"] and not p.wire["s2c"]:
             break
